@@ -84,11 +84,12 @@ func (e *Engine) regMethod(key, doc string, apply func(f *Frame, st *State, c *s
 	return x
 }
 
-func allocMods(e *Engine, c *ssa.CallCommon, m *ModSet) { m.alloc = true }
+func allocMods(e *Engine, c *ssa.CallCommon, m *ModSet) {}
 
 func (e *Engine) initExt() {
 	e.ext = map[string]*ExtSpec{}
 	e.extMethods = map[string]*ExtSpec{}
+	e.initHOF()
 
 	pure := func(names []string, doc string) {
 		for _, n := range names {
@@ -141,7 +142,7 @@ func (e *Engine) initExt() {
 	e.reg("strings.Split", "strings.Split: returns a fresh slice with len >= 1 (sep non-empty)", func(f *Frame, st *State, c *ssa.CallCommon, args []Val, rt types.Type, pos token.Pos) Val {
 		return freshSlice(f, st, rt, One)
 	}).mods = func(e *Engine, c *ssa.CallCommon, m *ModSet) {
-		m.alloc = true
+		m.allocKind("E|string")
 		addElemComps(m, types.Typ[types.String])
 	}
 	uf([]string{"strconv.Itoa", "unicode/utf8.RuneCountInString"}, "pure function (uninterpreted)")
@@ -178,7 +179,7 @@ func (e *Engine) initExt() {
 		vc := f.vc
 		s := args[0]
 		el := elemOf(s.T)
-		r := vc.alloc(st, "clone")
+		r := vc.alloc(st, "clone", "E|"+typeKey(el))
 		resArr := Ite(Eq(s.arr(), Zero), Zero, r)
 		for _, name := range vc.elemComps(el) {
 			cc := vc.get(st, name)
@@ -193,13 +194,13 @@ func (e *Engine) initExt() {
 		_ = fn
 	}
 	e.regPrefix("slices.Clone[", "slices.Clone: nil for nil; otherwise a fresh backing array with the same elements", cloneSlice, func(e *Engine, c *ssa.CallCommon, m *ModSet) {
-		m.alloc = true
+		m.allocKind("E|" + typeKey(elemOf(c.Args[0].Type())))
 		addElemComps(m, elemOf(c.Args[0].Type()))
 	})
 	cloneMap := func(f *Frame, st *State, c *ssa.CallCommon, args []Val, rt types.Type, pos token.Pos) Val {
 		vc := f.vc
 		m := args[0].one()
-		r := vc.alloc(st, "mclone")
+		r := vc.alloc(st, "mclone", "M|"+typeKey(rt))
 		dom, size, vals := f.mapComps(rt)
 		for _, name := range append([]string{dom, size}, vals...) {
 			cc := vc.get(st, name)
@@ -208,7 +209,7 @@ func (e *Engine) initExt() {
 		return scalar(rt, Ite(Eq(m, Zero), Zero, r))
 	}
 	e.regPrefix("maps.Clone[", "maps.Clone: nil for nil; otherwise a fresh map with the same entries", cloneMap, func(e *Engine, c *ssa.CallCommon, m *ModSet) {
-		m.alloc = true
+		m.allocKind("M|" + typeKey(c.Args[0].Type()))
 		addMapComps(m, c.Args[0].Type())
 	})
 
@@ -220,9 +221,11 @@ func (e *Engine) initExt() {
 		"(*google.golang.org/protobuf/types/known/timestamppb.Timestamp).AsTime", "(*google.golang.org/protobuf/types/known/timestamppb.Timestamp).String"},
 		"pure; result unconstrained (nil-safe receiver where a method)")
 	e.reg("google.golang.org/protobuf/types/known/timestamppb.New", "timestamppb.New: returns a fresh non-nil Timestamp", func(f *Frame, st *State, c *ssa.CallCommon, args []Val, rt types.Type, pos token.Pos) Val {
-		r := f.vc.alloc(st, "ts")
+		r := f.vc.alloc(st, "ts", kindOfPtr(rt))
 		return scalar(rt, r)
-	}).mods = allocMods
+	}).mods = func(e *Engine, c *ssa.CallCommon, m *ModSet) {
+		m.allocKind("H|google.golang.org/protobuf/types/known/timestamppb.Timestamp")
+	}
 
 	// ---- crypto ----
 	uf([]string{"crypto/sha256.Sum256"}, "pure function of the byte slice header (contents abstracted)")
@@ -280,7 +283,7 @@ func (e *Engine) regPrefix(prefix, doc string, apply func(f *Frame, st *State, c
 
 func freshSlice(f *Frame, st *State, rt types.Type, minLen Term) Val {
 	vc := f.vc
-	r := vc.alloc(st, "extarr")
+	r := vc.alloc(st, "extarr", "E|"+typeKey(elemOf(rt)))
 	ln := vc.fresh("len", SInt)
 	cp := vc.fresh("cap", SInt)
 	vc.fact(And(Ge(ln, minLen), Ge(ln, Zero), Le(ln, cp)))
